@@ -202,4 +202,60 @@ theorem make_re (dbg : Bool) (q : Quat (Dual K)) : exRe vre (make dbg q) = make 
   cases checkUnit dbg (Quat.norm q.re) <;> rfl
 end SO3
 
+/-! ## SE3 (through the SO3 lemmas) -/
+def SE3.vre (X : SE3 (Dual K)) : SE3 K := ⟨X.t.re, X.q.re⟩
+def SE3T.vre (t : SE3T (Dual K)) : SE3T K := ⟨t.lin.re, t.ang.re⟩
+
+namespace SO3T
+theorem ljac_re (t : SO3T (Dual K)) : (ljac t).re = ljac t.vre := by
+  have hc : Scalar.le t.v.sqNorm (Scalar.eps : Dual K) = Scalar.le t.vre.v.sqNorm (Scalar.eps : K) := rfl
+  unfold ljac
+  simp only [hc]
+  cases Scalar.le t.vre.v.sqNorm (Scalar.eps : K) <;> rfl
+
+theorem ljacinv_re (t : SO3T (Dual K)) : (ljacinv t).re = ljacinv t.vre := by
+  have hc : Scalar.le t.v.sqNorm (Scalar.eps : Dual K) = Scalar.le t.vre.v.sqNorm (Scalar.eps : K) := rfl
+  unfold ljacinv
+  simp only [hc]
+  cases Scalar.le t.vre.v.sqNorm (Scalar.eps : K) <;> rfl
+end SO3T
+
+namespace SE3T
+theorem expRaw_re (t : SE3T (Dual K)) :
+    ((expRaw t).1.re, (expRaw t).2.re) = expRaw t.vre := by
+  unfold expRaw
+  have h1 := SO3T.ljac_re t.asSO3
+  have h2 := SO3T.expRaw_re t.asSO3
+  have e : t.asSO3.vre = t.vre.asSO3 := rfl
+  rw [e] at h1 h2
+  rw [← h1, ← h2]
+  rfl
+end SE3T
+
+namespace SE3
+theorem composeRaw_re (X Y : SE3 (Dual K)) :
+    ((composeRaw X Y).1.re, (composeRaw X Y).2.re) = composeRaw X.vre Y.vre := by
+  unfold composeRaw
+  have h := SO3.composeRaw_re X.asSO3 Y.asSO3
+  have e1 : X.asSO3.vre = X.vre.asSO3 := rfl
+  have e2 : Y.asSO3.vre = Y.vre.asSO3 := rfl
+  rw [e1, e2] at h
+  rw [← h]
+  rfl
+theorem inverseRaw_re (X : SE3 (Dual K)) :
+    ((inverseRaw X).1.re, (inverseRaw X).2.re) = inverseRaw X.vre := rfl
+theorem act_re (X : SE3 (Dual K)) (v : V3 (Dual K)) : (act X v).re = act X.vre v.re := rfl
+theorem log_re (X : SE3 (Dual K)) : (log X).vre = log X.vre := by
+  unfold log
+  have h1 := SO3.log_re X.asSO3
+  have e1 : X.asSO3.vre = X.vre.asSO3 := rfl
+  rw [e1] at h1
+  have h2 := SO3T.ljacinv_re X.asSO3.log
+  rw [h1] at h2
+  unfold SE3T.vre
+  congr 1
+  · rw [← h2]; rfl
+  · rw [← h1]; rfl
+end SE3
+
 end Manif
